@@ -6,7 +6,7 @@ real parser produces and must agree with the independent Python oracle's structu
 oracle judges every tree of the sweep: structure, equality with CPython's positions for the kinds CPython
 positions, and `source[range] == construct text` rules for the others.
 
-Ranged parser model (streams `ranged-parser-model-*`, harness pvh_c02, request `rexpr <hex src> <spans>`): the Lean
+Ranged parser model (streams `ranged-parser-model-*`, harness pvh_c01, request `rexpr <hex src> <spans>`): the Lean
 model `PV.C02.parseRExpression` (lean/PV/C02/RParse.lean, ranged twin of the reference expression parser) computes
 the range of every node from the tokens of the source and the real lexer's token spans; its canonical ranged tree
 must be byte-identical with the real parser's (Expression mode, all-ranges build), and the same oracle judges
@@ -34,44 +34,100 @@ warnings.simplefilter("ignore")
 
 ID = "C02"
 DESIGN_REF = "DESIGN.md section 5, C02; design/C02.md; design/REFTOOLS.md"
-LEAN_TARGETS = ["PV.C02.Thm"]
+LEAN_TARGETS = ["PV.C02.Thm", "PV.C02.RThm"]
 DRIVER = "drv_c02"
 HARNESS = {"bin": "pvh_c01", "features": "all-ranges"}
 THEOREMS = [
+    # about the checker
     "PV.C02.rangesOk_node",
     "PV.C02.rangesOk_slice",
     "PV.C02.rangesOk_siblings",
     "PV.C02.viol_nil_iff",
+    # about the model of range computation (ranged twin of the reference expression parser)
+    "PV.C02.parseR_erase",
+    "PV.C02.parseRExpression_erase",
+    "PV.C02.tiled_of_lexer",
+    "PV.C02.parseR_rangesOkX",
+    "PV.C02.parseR_rangesOk_partial",
+    "PV.C02.parseRExpression_rangesOkX",
+    "PV.C02.parseRExpression_rangesOk_partial",
+    "PV.C02.argwithdefault_witness",
+    "PV.C02.parseR_rangesOk_fails",
+    "PV.C02.parseR_extent",
+    "PV.C02.parseR_extent_nonterminals",
+    "PV.C02.parseR_extent_fails",
+    "PV.C02.genexp_sole_argument_witness",
+    "PV.C02.genexp_sole_argument_fails",
+    "PV.C02.namedexpr_witness",
+    "PV.C02.lambda_empty_arguments_witness",
+    "PV.C02.fstring_piece_in_concatenation_witness",
 ]
 TRUSTED = [
     "Lean 4.33.0 kernel; axioms limited to propext, Classical.choice, Quot.sound",
-    "the parser (LR automaton, @L/@R captures in the actions, lexer offsets, string.rs re-basing) is NOT modelled: "
-    "its trees are inputs of the Lean predicate `rangesOk` and of the Python oracle",
+    "fidelity of the hand-written model PV.C02.parseR (lean/PV/C02/RParse.lean: which cursor positions each grammar "
+    "action of python.lalrpop / function.rs / string.rs takes its range from), as sampled by the correspondence "
+    "streams ranged-parser-model-* (byte-identical ranged trees on ~97k / ~400k expression sources per run, 0 "
+    "disagreements); the LR automaton itself is not modelled, the model is a recursive-descent twin of C11's parseRef",
+    "the token VALUES handed to the model come from PV.C11.lex (tied to lexer.rs by the C11 and C02 streams), the token "
+    "SPANS from the real lexer (attachment of each request); that real spans tile the source is proved for the lexer "
+    "MODEL (C05) and bridged by tiled_of_lexer for spans only",
+    "for everything outside the expression fragment (statements, patterns, type parameters, decorators, f-string "
+    "replacement fields in the theorems): the parser is NOT modelled; its trees are inputs of the Lean predicate "
+    "`rangesOk` and of the Python oracle",
     "CPython 3.11.7 lineno/col_offset/end_* converted to byte offsets (tools/pyref.py) as the reference extent of "
     "statements, expressions, patterns, parameters, keywords, aliases and handlers",
     "tools/props/c02.py (oracle: structural rules, extent rules for the kinds CPython does not position), "
-    "tools/gen_program.py, tools/refsweep.py, harness/src/astdump.rs, harness/src/bin/pvh_c01.rs, lean/Drv/C02.lean",
+    "tools/props/c11.py (generators), tools/gen_program.py, tools/refsweep.py, harness/src/astdump.rs, "
+    "harness/src/bin/pvh_c01.rs, lean/Drv/C02.lean, lean/PV/C02/Fwd.lean (proof-producing tactic; its output is "
+    "kernel-checked)",
 ]
 PARTIAL = [
-    "the theorems are about the checker `rangesOk` (what passing it guarantees for every node and slice), not about "
-    "the parser: that the parser's trees pass it, and that ranges equal the reference extents, is established only "
-    "for the swept inputs (generated programs over every form and layout, the CPython stdlib)",
-    "no Lean model of the @L/@R range computation of the grammar actions (DESIGN.md's parseRef_ranges/parseRef_extent "
-    "are not built)",
+    "proved (unbounded, for the MODEL): for the whole expression fragment except f-string pieces (`plain`): every tree "
+    "parseR returns for tiled token spans satisfies every structural clause of the property but one "
+    "(parseR_rangesOkX) and all five when no parameter has a default (parseR_rangesOk_partial); the full statement is "
+    "refuted on the code as it is (parseR_rangesOk_fails: listed finding argwithdefault-range-excludes-default)",
+    "proved: the range of every node returned by a nonterminal of the expression chain is the span of the tokens "
+    "consumed, up to parentheses that are returned through and the NamedExpr deviation (parseR_extent, "
+    "parseR_extent_nonterminals); the statement without that deviation is refuted (parseR_extent_fails: listed "
+    "finding namedexpr-range-excludes-value-parentheses); equality with CPython's extents is judged per input by "
+    "the oracle, the deviations of the fragment are reproduced by kernel-checked witnesses (genexp, lambda "
+    "arguments, f-string pieces in a concatenation)",
+    "not proved: trees containing f-string pieces (JoinedStr / FormattedValue: the model computes their ranges and the "
+    "streams compare them, but the theorems exclude them: the span table of a replacement field's inner tokens is "
+    "not shown to tile the source); the listed finding fstring-field-range-after-crlf lies outside the model's lexer "
+    "domain (no CR)",
+    "not modelled: statements, patterns, type parameters, with-items, handlers, decorators, Module/Interactive mode: "
+    "for these the check only EVALUATES rangesOk and the CPython / extent oracle per input (generated programs over "
+    "every form and layout, the CPython stdlib)",
+    "the bridge tiled_of_lexer relates token SPANS of the lexer model to `Tiled`; the token values of PV.Lexer.Tok and "
+    "PV.Expr.Tok are related only by correspondence streams",
 ]
 READY = True
-TECHNIQUE = ("Lean 4 theorems about an executable range-structure predicate evaluated by the driver on the real parser's "
-             "trees + independent Python oracle against CPython positions over a whole-language sweep")
-LEVEL_TEXT = ("Machine-checked Lean 4 theorems about the executable predicate rangesOk over arbitrary trees and sources: "
-              "passing it implies, for every node at any depth, a well-formed slice on UTF-8 boundaries, child slices that "
-              "are sub-slices of the parent's at the expected offset (decorators excepted) and ordered, disjoint list "
-              "siblings; the reporting variant used at run time is proved equivalent. The driver evaluates the predicate "
-              "on the trees the real parser (all-nodes-with-ranges build) produces and must agree with an independent "
-              "Python oracle, which also compares every positioned node with CPython 3.11's positions and checks extent "
-              "rules for the other kinds, over generated programs (multi-byte text, CR/CRLF, BOM, continuations, "
-              "parenthesised forms, f-string fields, concatenated strings) and the CPython stdlib.")
-LEVEL_NOTE = ("Partial: the range computation inside the generated parser is not modelled; conformance of the parser's "
-              "ranges is swept, not proved.")
+TECHNIQUE = ("Lean 4: executable model of the range computation of the expression grammar (ranged twin of C11's reference "
+             "parser) with machine-checked theorems (erasure = reference parser; every returned tree passes rangesOk, by "
+             "induction over the parser; extents = consumed token spans), tied to the real parser by byte-identical ranged "
+             "trees; plus theorems about the executable range-structure predicate evaluated on the real parser's trees "
+             "and an independent Python oracle against CPython positions over a whole-language sweep")
+LEVEL_TEXT = ("Machine-checked Lean 4, for every input and fuel: (1) erasing the ranges computed by the model parseR gives "
+              "exactly the reference expression parser parseRef (C11), so acceptance and trees coincide; (2) for token "
+              "spans that tile the source (proved of the lexer model by C05, bridged by tiled_of_lexer) every tree "
+              "without f-string pieces that parseR returns satisfies all structural clauses of the property (inside the "
+              "input, on UTF-8 boundaries, start <= end, parents enclose children, list siblings ordered and disjoint) — "
+              "except that a parameter's default lies outside its ArgWithDefault, exactly the listed finding, which is "
+              "also proved to refute the unrestricted statement; (3) the range of every node returned by a nonterminal "
+              "is the span of the tokens consumed, up to returned-through parentheses and the listed NamedExpr "
+              "deviation (refutation of the exact statement proved); (4) kernel-checked witnesses that the model "
+              "reproduces the listed deviations from CPython's extents inside the fragment; (5) theorems about the "
+              "checker rangesOk itself (what passing it guarantees for every node, slice and sibling pair). The model "
+              "is tied to the real parser (all-nodes-with-ranges build) by byte-identical ranged canonical trees on "
+              "every request of the ranged-parser-model streams (directed slot x kind enumeration, operator pairs, "
+              "parentheses and trivia at every position, multi-byte names, lambda parameter lists, comprehensions, "
+              "slices, f-strings with nested specs, concatenations, random and stdlib expressions); the real trees "
+              "are judged by an independent oracle (structure, CPython 3.11 positions, extent rules).")
+LEVEL_NOTE = ("Partial: proved for the model of the expression fragment only (f-string pieces excluded from the structural "
+              "theorem); statements, patterns, type parameters and the other modes are evaluated per input (rangesOk on "
+              "the real trees + CPython-position oracle over generated programs and the stdlib), not proved. Trusted: "
+              "fidelity of the hand-written model as sampled by the correspondence streams.")
 RULE = ("distinct source texts whose every node range is judged; correspondence: (source, real tree) pairs evaluated by the "
         "Lean predicate, and (expression source, real token spans) pairs whose ranged tree the Lean parser model computes; "
         "non-trivial = the expression has an operator, bracket, separator or blank")
@@ -414,7 +470,7 @@ def judge_trees(b, tree, rt):
 
 
 def _drop_ctx(t):
-    """the tree without its `ctx` fields (pvh_c02 strips them: the Lean model has no expression context)"""
+    """the tree without its `ctx` fields (pvh_c01 strips them: the Lean model has no expression context)"""
     if isinstance(t, str):
         return t
     if isinstance(t, list):
@@ -497,13 +553,12 @@ _LEAN_ITEMS = []
 
 # ------------------------------------------------------------------------------------------------ ranged parser model
 #
-# Request `rexpr <hex src> <spans>`: `<spans>` = byte spans of the real lexer's tokens (pvh_c02 `lexspans e`), the
+# Request `rexpr <hex src> <spans>`: `<spans>` = byte spans of the real lexer's tokens (pvh_c01 `lexspans e`), the
 # attachment from which the Lean model `PV.C02.parseRExpression` (ranged twin of the reference expression parser)
-# computes every range.  pvh_c02 answers the ranged tree of the real parse, drv_c02 the model's: byte-identical.
+# computes every range.  pvh_c01 answers the ranged tree of the real parse, drv_c02 the model's: byte-identical.
 # The oracle judges the real tree exactly like the sweeps (structure, extents, CPython's positions).
 
-RX_HARNESS = {"bin": "pvh_c02", "features": "all-ranges"}
-EXTRA_HARNESS = [RX_HARNESS]
+RX_HARNESS = HARNESS            # ops `lexspans`, `rexpr` of pvh_c01 (all-ranges build)
 
 # the listed findings that are expressions (the model reproduces each deviation; the oracle names it)
 RX_FINDING_EXPRS = ["f(x for x in y)", "f( x for x in y )", "(y := (x))", "[y := (x)]", "lambda: 1", "lambda a=1: a",
